@@ -61,6 +61,17 @@ func runEdge(seed uint64, n int, tier string, out string, replay string) {
 			rw.Header().Set("X-Origin-Header", "kept")
 			_, _ = rw.Write([]byte("aged body " + r.URL.Path))
 			return
+		case strings.HasPrefix(r.URL.Path, "/private/"):
+			rw.Header().Set("Cache-Control", []string{"private", "no-store", "no-cache, max-age=0"}[int(count(r.URL.Path).Load())%3])
+			rw.Header().Set("Content-Type", "text/plain")
+			_, _ = rw.Write([]byte(fmt.Sprintf("private answer %d for %s", count(r.URL.Path).Load(), r.URL.Path)))
+			return
+		case strings.HasPrefix(r.URL.Path, "/write/"):
+			rw.Header().Set("Etag", "\"v1\"")
+			rw.Header().Set("Last-Modified", "Mon, 02 Jan 2006 15:04:05 GMT")
+			rw.WriteHeader(201)
+			_, _ = rw.Write([]byte("written by " + r.Method))
+			return
 		case strings.HasPrefix(r.URL.Path, "/empty204/"):
 			rw.Header().Set("Cache-Control", "max-age=60")
 			rw.WriteHeader(204)
@@ -110,9 +121,10 @@ func runEdge(seed uint64, n int, tier string, out string, replay string) {
 	defer cache.ResetDispatchers(nil)
 	upstream.Reset([]config.UpstreamConfig{{Name: "eu", Servers: []config.UpstreamServerConfig{{Addr: origin.URL}}}})
 	defer upstream.Reset(nil)
-	location.Reset([]config.LocationConfig{{Name: "el", Upstream: "eu"}})
+	location.Reset([]config.LocationConfig{{Name: "el", Upstream: "eu"},
+		{Name: "elcc", Upstream: "eu", Prefixes: []string{"/private"}, RespHeaders: []string{"Cache-Control:public, max-age=300", "X-Loc:cc"}}})
 	defer location.Reset(nil)
-	server.Reset([]config.ServerConfig{{Addr: ":7997", Locations: []string{"el"}, Cache: "ec", CompressMinLength: "1kb", CompressContentTypeFilter: "text|json"}})
+	server.Reset([]config.ServerConfig{{Addr: ":7997", Locations: []string{"el", "elcc"}, Cache: "ec", CompressMinLength: "1kb", CompressContentTypeFilter: "text|json"}})
 	defer server.Reset(nil)
 	s := server.Get(":7997")
 	e := elton.New()
@@ -153,6 +165,31 @@ func runEdge(seed uint64, n int, tier string, out string, replay string) {
 			}
 		}
 		sum.Count("scenario:origin-age")
+		// (7) a location that adds a default "Cache-Control: public, max-age=300" cannot make an answer the
+		// origin marked private / no-store / no-cache shareable: every request reaches the origin
+		{
+			p := fmt.Sprintf("/private/%d", i)
+			for step := 0; step < 3; step++ {
+				rec := do("GET", p, "")
+				if got := count(p).Load(); got != int64(step+1) || rec.Header().Get("X-Status") == "hit" {
+					bad("C03", "private-origin-answer-shared", map[string]interface{}{"url": p, "request_no": step + 1, "origin_contacts": got, "x_status": rec.Header().Get("X-Status"), "body": rec.Body.String()[:min(rec.Body.Len(), 60)], "location_adds": "Cache-Control: public, max-age=300"})
+				}
+			}
+			sum.Count("scenario:location-cache-control")
+		}
+		// (8) writes that carry validators get the origin's own answer (status and body), not a 304
+		for _, c := range []struct{ method, hk, hv string }{{"PUT", "If-None-Match", "*"}, {"POST", "If-None-Match", "\"v1\""}, {"DELETE", "If-Modified-Since", "Mon, 02 Jan 2006 15:04:05 GMT"}, {"PATCH", "If-None-Match", "\"v1\""}} {
+			p := fmt.Sprintf("/write/%s/%d", c.method, i)
+			r := httptest.NewRequest(c.method, "http://edge.example"+p, nil)
+			r.RequestURI = p
+			r.Header.Set(c.hk, c.hv)
+			rec := httptest.NewRecorder()
+			e.ServeHTTP(rec, r)
+			if rec.Code != 201 || rec.Body.String() != "written by "+c.method {
+				bad("C15+C05", "write-with-validators-not-answered-by-origin", map[string]interface{}{"method": c.method, "url": p, "validator": c.hk + ": " + c.hv, "status": rec.Code, "body": rec.Body.String()[:min(rec.Body.Len(), 60)], "expected": "201 written by " + c.method})
+			}
+		}
+		sum.Count("scenario:writes-with-validators")
 		// (2) body-less responses after a response with a body for another URL
 		_ = do("GET", fmt.Sprintf("/withbody/%d", i), "")
 		for _, c := range []struct{ method, path string }{{"HEAD", fmt.Sprintf("/head/%d", i)}, {"GET", fmt.Sprintf("/empty204/%d", i)}, {"GET", fmt.Sprintf("/empty200/%d", i)}} {
@@ -177,7 +214,7 @@ func runEdge(seed uint64, n int, tier string, out string, replay string) {
 			}
 		}
 		sum.Count("scenario:dropped-connection")
-		// (6) keys whose URI contains percent-escapes are purged through the admin endpoint DELETE /cache (named and unnamed): the next request refetches, the un-escaped sibling URL stays a hit; (5) chunked origin responses obey threshold and filter
+		// (6) keys whose URI contains percent-escapes are purged through the admin endpoint DELETE /cache (named and unnamed): the next request refetches, the un-escaped sibling URL stays a hit; (7) a location adding a default Cache-Control cannot make a private / no-store / no-cache origin answer shareable; (8) PUT / POST / DELETE / PATCH carrying validators get the origin's own status and body; (5) chunked origin responses obey threshold and filter
 		for _, c := range []struct {
 			q    string
 			want string
